@@ -230,6 +230,6 @@ def body_tree(case):
 
 def tests(tier):
     return [
-        TestSpec("history", lambda f: G.from_gen(gen_history, 1024), body_history, {"quick": 400, "thorough": 40000}),
-        TestSpec("tree", lambda f: G.from_gen(gen_tree, 768), body_tree, {"quick": 3000, "thorough": 400000}),
+        TestSpec("history", gen_history, body_history, {"quick": 400, "thorough": 40000}, tape=1024),
+        TestSpec("tree", gen_tree, body_tree, {"quick": 3000, "thorough": 400000}, tape=768),
     ]
